@@ -291,6 +291,11 @@ static int32 pkcs12pbe(psPool_t *pool, unsigned char *password, uint32 passLen,
     int32 i, j, copy, count, cpyLen, binsize, plen;
 
     *out = NULL;
+    if (saltLen < 1)
+    {
+        /* The fill loop below needs a salt (an empty one is not supported) */
+        return PS_UNSUPPORTED_FAIL;
+    }
     Memset(diversifier, id, 64);
 
     for (i = 0; i < 64; )
